@@ -401,11 +401,29 @@ TRANSPARENT_CALLS = ('branch', 'from_residual', 'into', 'from', 'deref', 'deref_
                      'as_ptr', 'read_u32', 'iter', 'pop_front', 'pop_back', 'pop')
 
 
-def opaque_container(t, body=None, analysable=None):
+def _unbounded_subterms(t):
+    """sub-terms of an integer term, not descending below an operator that bounds its result whatever the operand is
+    (x & CONST, x % CONST): an unmodelled value under such an operator does not make the whole term unknown"""
+    yield t
+    if not isinstance(t, tuple):
+        return
+    if t and t[0] == 'bin' and t[1] in ('BitAnd', 'Rem') and any(isinstance(x, tuple) and x and x[0] == 'const' for x in t[2:4]):
+        return
+    for x in t[1:]:
+        if isinstance(x, tuple):
+            if x and isinstance(x[0], str):
+                yield from _unbounded_subterms(x)
+            else:
+                for y in x:
+                    if isinstance(y, tuple) and y and isinstance(y[0], str):
+                        yield from _unbounded_subterms(y)
+
+
+def opaque_container(t, body=None, analysable=None, arithmetic=False):
     """A reason if the term involves a value the provers have no model for: the result of a library or crate call
     (other than the handful modelled: len, get, min/max, `?` plumbing, numeric conversions ...) or program state after a
     call that may have modified it.  A failed proof about such a term is lack of information, not a refutation."""
-    for x in subterms(t):
+    for x in (_unbounded_subterms(t) if arithmetic else subterms(t)):
         if x[0] == 'post':
             if body is not None and analysable is not None and isinstance(x[1], int) and x[1] < len(body.blocks):
                 tt = body.blocks[x[1]]['term']
@@ -429,6 +447,8 @@ def opaque_container(t, body=None, analysable=None):
                         return f'size of the locally built collection {body.name_of(l) or "_"}: {ty[:40]}'
             if last in TRANSPARENT_CALLS:
                 continue
+            if arithmetic and last in ('next', 'next_back', 'nth', 'peek', 'first', 'last', 'copied', 'cloned'):
+                continue      # an element taken from caller-supplied data: an arbitrary value of its type, nothing hidden about it
             return f'result of {last}()'
     return None
 
